@@ -63,6 +63,7 @@ type ContractDB struct {
 	GhostByName map[string]GhostVar
 	Inv         []*Clause
 	Guar        []*Clause
+	SectGuar    []*Clause
 	ThreadLocal map[string]bool // struct type names (or Type.field) not havocked at lock acquire
 	Consts      map[string]string
 	Callers     map[string][]string
@@ -71,7 +72,7 @@ type ContractDB struct {
 	NLines      int
 }
 
-var topKeywords = map[string]bool{"ghost": true, "spec": true, "inv": true, "guar": true, "threadlocal": true, "func": true, "iface": true, "extern": true, "lemma": true, "callers": true, "unprotected": true}
+var topKeywords = map[string]bool{"sectguar": true, "ghost": true, "spec": true, "inv": true, "guar": true, "threadlocal": true, "func": true, "iface": true, "extern": true, "lemma": true, "callers": true, "unprotected": true}
 var clauseKeywords = map[string]bool{"requires": true, "ensures": true, "assume": true, "release": true, "at": true, "loop": true, "let": true, "val": true, "modifies": true, "flags": true}
 
 var labelRe = regexp.MustCompile(`^\[([^\]]+)\]\s*`)
@@ -179,7 +180,7 @@ func ParseContractFile(path string) (*ContractDB, error) {
 					return nil, fail(err)
 				}
 				db.Specs[name] = &SpecFn{name, params, body, rest}
-			case "inv", "guar":
+			case "inv", "guar", "sectguar":
 				lab, src := takeLabel(rest)
 				e, err := ParseCExpr(src)
 				if err != nil {
@@ -188,8 +189,10 @@ func ParseContractFile(path string) (*ContractDB, error) {
 				c := &Clause{Kind: w, Label: lab, Expr: e, Src: src, Line: it.line}
 				if w == "inv" {
 					db.Inv = append(db.Inv, c)
-				} else {
+				} else if w == "guar" {
 					db.Guar = append(db.Guar, c)
+				} else {
+					db.SectGuar = append(db.SectGuar, c)
 				}
 			case "func", "iface", "extern", "lemma":
 				fc := &FuncContract{Kind: w, Flags: map[string]bool{}, Line: it.line}
